@@ -21,7 +21,11 @@ def mutants():
         out[mid] = (os.path.join(d, 'patch.diff'), [json.load(open(os.path.join(d, 'meta.json')))['property']])
     for p in sorted(glob.glob(os.path.join(ROOT, 'selftest', 'mutants', '*.patch'))):
         mid = os.path.basename(p)[:-6]
-        out[mid] = (p, REVERT_PROPS.get(mid, ALL))
+        idx = {}
+        ip = os.path.join(ROOT, 'selftest', 'mutants', 'index.json')
+        if os.path.exists(ip):
+            idx = json.load(open(ip))
+        out[mid] = (p, REVERT_PROPS.get(mid) or idx.get(mid) or ALL)
     return out
 
 
